@@ -391,7 +391,9 @@ theorem sstep_closeScreen {frm : Option Src} (hc : c.code = .closeScreen frm :: 
   split
   · exact ⟨SStep.raise' (v := c.sv) .err hc rfl (by rw [sv_raise]; rfl), grow_raise _ (grow0 c rest)⟩
   · rename_i e he
-    exact ⟨SStep.closeScreen (v := c.sv) hc he, ⟨[_], rfl⟩⟩
+    split
+    · exact ⟨SStep.raise' (v := c.sv) .err hc rfl (by rw [sv_raise]; rfl), grow_raise _ (grow0 c rest)⟩
+    · exact ⟨SStep.closeScreen (v := c.sv) hc he, ⟨[_], rfl⟩⟩
 
 theorem sstep_closeScreen2 {e : Entry} {frm : Option Src} (hc : c.code = .closeScreen2 e frm :: rest) : StepOK P c := by
   unfold StepOK step; simp only [hc]
